@@ -28,6 +28,7 @@ type Env struct {
 	caller map[string]TV // at call sites: the caller's parameters, as caller.<name>
 	prevLoop *loopInfo   // in step clauses: the loop whose head state prev(e) refers to
 	callee map[string]bool // at call sites: names of the callee's parameters (they shadow the caller's locals)
+	inOld  bool
 }
 
 func (e *Env) withState(cur, old *State) *Env {
@@ -202,14 +203,29 @@ func (f *fx) evalSpec(x ast.Expr, env *Env) TV {
 		l := f.ptrLoc(base.V, base.GoT)
 		return tvTerm(f.load(env.cur, l), derefType(base.GoT))
 	case *ast.UnaryExpr:
+		if e.Op == token.AND {
+			// &x.f: the address of a field (same term the code computes for it)
+			if se, ok := e.X.(*ast.SelectorExpr); ok {
+				base := f.evalSpec(se.X, env)
+				if pt := derefType(base.GoT); pt != nil {
+					if st, ok := pt.Underlying().(*types.Struct); ok {
+						for i := 0; i < st.NumFields(); i++ {
+							if st.Field(i).Name() == se.Sel.Name {
+								l := f.ptrLoc(base.V, base.GoT).extend(PathStep{Field: i}, st.Field(i).Type())
+								return tvTerm(f.reify(locVal(l)), types.NewPointer(st.Field(i).Type()))
+							}
+						}
+					}
+				}
+			}
+			unsupp("spec: & is only supported on pointer.field")
+		}
 		v := f.evalSpec(e.X, env)
 		switch e.Op {
 		case token.NOT:
 			return tvTerm(not(f.reify(v.V)), tBoolT)
 		case token.SUB:
 			return tvTerm(T("Int", "(- %s)", f.reify(v.V).S), v.GoT)
-		case token.AND:
-			return v // &x: locations are already addresses
 		}
 	case *ast.BinaryExpr:
 		return f.specBinary(e, env)
@@ -268,6 +284,23 @@ func (f *fx) tryIdent(name string, env *Env) (TV, bool) {
 	if env.bound != nil {
 		if v, ok := env.bound[name]; ok {
 			return v, true
+		}
+	}
+	if env.inOld {
+		// in the pre-state only parameters exist (captured copies of them are not initialised yet)
+		if v, ok := env.f.top.topEnv.vars[name]; ok && (env.callee == nil || !env.callee[name]) {
+			if _, isFV := v.GoT.(*types.Pointer); !isFV || env.f.top.fn.Parent() == nil {
+				return v, true
+			}
+		}
+	}
+	// captured variables of a closure are referred to by name: their current value
+	if env.f != nil && (env.callee == nil || !env.callee[name]) {
+		for i, fv := range env.f.fn.FreeVars {
+			if fv.Name() == name && i < len(env.f.freeVars) {
+				l := f.ptrLoc(env.f.freeVars[i], fv.Type())
+				return TV{V: termVal(f.load(env.cur, l)), GoT: derefType(fv.Type())}, true
+			}
 		}
 	}
 	if env.callee != nil && env.callee[name] {
@@ -395,7 +428,12 @@ func (f *fx) fieldStep(base TV, i int, env *Env) TV {
 		st := p.Underlying().(*types.Struct)
 		l := f.ptrLoc(base.V, t)
 		fl := l.extend(PathStep{Field: i}, st.Field(i).Type())
-		return tvTerm(f.load(env.cur, fl), st.Field(i).Type())
+		v := f.load(env.cur, fl)
+		if env.bound == nil || len(env.bound) == 0 {
+			// typing facts of the loaded value (not under quantifiers: bound variables must not escape)
+			f.assumeTyped(env.cur, v, st.Field(i).Type())
+		}
+		return tvTerm(v, st.Field(i).Type())
 	}
 	st, ok := t.Underlying().(*types.Struct)
 	if !ok {
@@ -421,7 +459,7 @@ func (f *fx) specIndex(base, idx TV, env *Env) TV {
 	case "Slice":
 		st := base.GoT.Underlying().(*types.Slice)
 		k := f.backingKey(st.Elem())
-		return tvTerm(sel(sel(f.get(env.cur, k), T("Int", "(sl_ref %s)", bt.S)), T("Int", "(+ (sl_off %s) %s)", bt.S, it.S)), st.Elem())
+		return tvTerm(sel(sel(f.get(env.cur, k), T("Int", "(sl_ref %s)", bt.S)), T("Int", "(idx_add (sl_off %s) %s)", bt.S, it.S)), st.Elem())
 	}
 	if base.GoT != nil {
 		switch u := base.GoT.Underlying().(type) {
@@ -542,6 +580,7 @@ func (f *fx) specCall(e *ast.CallExpr, env *Env) TV {
 		oenv := *env
 		oenv.cur = env.old
 		oenv.atLoop = false
+		oenv.inOld = true
 		return f.evalSpec(e.Args[0], &oenv)
 	case "imp":
 		return tvTerm(implies(argT(0), argT(1)), tBoolT)
@@ -789,11 +828,17 @@ func (f *fx) specCall(e *ast.CallExpr, env *Env) TV {
 		}
 		tn, _ := strconv.Unquote(tl.Value)
 		return tvTerm(f.e.sorts.zero(f.e.specSort(tn)), f.e.lookupType(tn))
+	case "refof":
+		// refof(x): the payload reference of an interface value
+		t := argT(0)
+		if t.Sort == "Iface" {
+			return tvTerm(T("Int", "(ival %s)", t.S), nil)
+		}
+		return tvTerm(refOf(t), nil)
 	case "isptr":
 		// isptr(x): the dynamic type of interface value x is a pointer type
 		t := argT(0)
-		f.sc.declareOnce("is_ptr_tag", "(declare-fun is_ptr_tag (Int) Bool)")
-		return tvTerm(T("Bool", "(is_ptr_tag (itag %s))", t.S), tBoolT)
+			return tvTerm(T("Bool", "(is_ptr_tag (itag %s))", t.S), tBoolT)
 	case "isnil":
 		t := argT(0)
 		return tvTerm(eq(t, f.e.sorts.zero(t.Sort)), tBoolT)
